@@ -682,8 +682,27 @@ pub fn pbt_proc(ctx: &Ctx, part: &str, total_cases: u64, procs: usize) -> Option
 		kids.push((k, child, out));
 	}
 	let mut first: Option<(Value, Fail)> = None;
+	// watchdog: a child that does not finish within a generous deadline (a call of the code under test
+	// that never returns, in a part that has no oracle for it) is killed; that is a harness-level
+	// outcome (exit 2, "inconclusive"), never a violation
+	let deadline = std::time::Instant::now()
+		+ std::time::Duration::from_secs(std::env::var("GV_PROC_TIMEOUT_S").ok().and_then(|x| x.parse().ok()).unwrap_or(if ctx.quick() { 1200 } else { 6 * 3600 }));
 	for (k, mut child, out) in kids {
-		let status = child.wait().expect("wait child");
+		let status = loop {
+			match child.try_wait().expect("wait child") {
+				Some(st) => break st,
+				None => {
+					if std::time::Instant::now() > deadline {
+						let _ = child.kill();
+						let st = child.wait().expect("wait child");
+						eprintln!("child {} of part {} killed by the watchdog", k, part);
+						ctx.ev.class("children_killed_by_watchdog");
+						break st;
+					}
+					std::thread::sleep(std::time::Duration::from_millis(50));
+				}
+			}
+		};
 		let body = std::fs::read_to_string(&out).ok().and_then(|s| serde_json::from_str::<Value>(&s).ok());
 		match body {
 			Some(v) => {
